@@ -81,7 +81,21 @@ def main():
         shutil.copy(note, os.path.join(out_dir, "note.md"))
         with open(note) as f:
             meta["needs_to_manifest"] = f.read()[:1500]
-    with open(os.path.join(out_dir, "meta.json"), "w") as f:
+    # keep the outcome of earlier runs (checks are strengthened over time): history = oldest first
+    mp = os.path.join(out_dir, "meta.json")
+    hist = []
+    if os.path.exists(mp):
+        try:
+            with open(mp) as f:
+                old = json.load(f)
+            hist = old.get("history", [])
+            hist.append({"verif_commit": old.get("verif_commit"), "detected": old.get("detected"),
+                         "detected_with_failing_input": old.get("detected_with_failing_input"), "check": old.get("check")})
+        except Exception:
+            pass
+    meta["history"] = hist
+    meta["verif_commit"] = sh("git -C %s rev-parse --short HEAD" % VERIF)[1].strip()
+    with open(mp, "w") as f:
         json.dump(meta, f, indent=1)
     print(json.dumps({k2: meta[k2] for k2 in ("property", "valid_seed", "detected", "detected_with_failing_input") if k2 in meta}), meta.get("check", {}).get("lines"))
 
